@@ -65,7 +65,7 @@ def handle (cmd : String) (args : List Int) : Option String :=
       let ds := (if d.isEmpty then "none" else "+".intercalate d) ++
         (if a.g.coordVars == b.g.coordVars then " coords-same" else " coords-differ")
       let m := s!"{encBool (pyEq a.g (.grid b.g))} {encBool (pyNe a.g (.grid b.g))} {encBool (gridEqAsIs a.g b.g)}"
-      let bm := s!"{encBool (gridEqB a b)} {encBool (gridEqB b a)} {encBool (namesFaithful a b)} {encBool (namesFaithful b a)}"
+      let bm := s!"{encBool (gridEqB a b)} {encBool (gridEqB b a)} {encBool (namesFaithful a b)} {encBool (namesFaithful b a)} {encBool (gridEqCoords a.g b.g)}"
       pure (";".intercalate [ds, verdict (failing a.g b.g e1 n1), verdict (failing b.g a.g e2 n2),
         verdict (if symmOK e1 e2 then [] else ["eq_symm"]), m, bm, a.kind ++ "+" ++ b.kind])
   | "C20.wf" => do
